@@ -15,12 +15,14 @@ func init() {
 		Assumptions: []string{
 			"layout dimensions (CSRC count {0,1,2,15}, extension configuration, payload length {0..5,100,1200}, padding {none,1,2,4,255}) are taken in full product; fixed header fields are taken from 4 presets in the layout product and in full product of their own alphabets over 8 representative layouts",
 			"one-byte blocks: 0-3 elements with ids from {1,2,7,14} and lengths {1,2,3,4,15,16}, plus the full 14-element block; two-byte blocks: 0-3 elements, ids {1,14,15,16,255}, lengths {0,1,2,3,16,17,254,255}; legacy: 5 profiles x {0,1,2,64} words (quick tier: 3-element blocks use 3-value alphabets)",
+			"two-element blocks over the complete ranges: one-byte ids 1-14 (ordered pairs) x every length 1-16 for both; two-byte ids from {1,2,15,16,127,128,254,255} x lengths {0,1,15,16,17,127,128,254,255} for both; x CSRC {0,15} x payload {0,5} x padding {none,2}",
 			"a further scenario covers 4-14 one-byte elements and 4-12 two-byte elements (ids 1..n resp. spread over 1..255, three length patterns each, incl. blocks longer than 255 and 1020 bytes) x CSRC {0,15} x payload lengths {0,1,9,1201,4097,65000} with position-dependent / all-zero / all-FF content x padding {none,255}; legacy blocks of 16383-65535 words (64 KiB and more) and the largest two-byte block (255 elements of 255 bytes); anything beyond (payloads above 65000 bytes, other id sets) is outside the bound",
 		},
 		Scenarios: []mc.Scenario{
 			{Name: "layout-product", Tiers: "qt", ShardDepth: 4, Run: c01Layout},
 			{Name: "fixed-fields-product", Tiers: "qt", ShardDepth: 3, Run: c01Fixed},
 			{Name: "many-elements-large-payloads", Tiers: "qt", ShardDepth: 3, Run: c01Large},
+			{Name: "two-elements-full-id-and-length-ranges", Tiers: "qt", ShardDepth: 3, Run: c01Pairs},
 		},
 	})
 }
@@ -230,6 +232,62 @@ func c01Large(c *mc.Ctx) {
 	if c.Bool() {
 		p.Padding, p.PaddingSize = true, 255
 		w.w.PadSize = 255
+	}
+	w.w.CSRC = p.CSRC
+	w.w.Payload = clone(p.Payload)
+	c01Oracle(c, p, w)
+}
+
+// c01Pairs: two-element blocks over the complete id and length ranges.
+func c01Pairs(c *mc.Ctx) {
+	p := &rtp.Packet{}
+	f := fixedPresets[0]
+	p.Version, p.Marker, p.PayloadType, p.SequenceNumber, p.Timestamp, p.SSRC = f.version, f.marker, f.pt, f.seq, f.ts, f.ssrc
+	w := newWire(f)
+	var id1, id2 uint8
+	var l1, l2 int
+	if c.Bool() {
+		w.setProfile(0xBEDE)
+		id1 = uint8(1 + c.Pick(14))
+		id2 = uint8(1 + c.Pick(13))
+		if id2 >= id1 {
+			id2++
+		}
+		l1, l2 = 1+c.Pick(16), 1+c.Pick(16)
+	} else {
+		w.setProfile(0x1000)
+		p.Extension, p.ExtensionProfile = true, 0x1000
+		ids := []uint8{1, 2, 15, 16, 127, 128, 254, 255}
+		lens := []int{0, 1, 15, 16, 17, 127, 128, 254, 255}
+		a := c.Pick(8)
+		b := c.Pick(7)
+		if b >= a {
+			b++
+		}
+		id1, id2 = ids[a], ids[b]
+		l1, l2 = mc.From(c, lens), mc.From(c, lens)
+	}
+	for i, e := range []struct {
+		id uint8
+		l  int
+	}{{id1, l1}, {id2, l2}} {
+		v := fill(e.l, byte(0x31*(i+1)))
+		if err := p.SetExtension(e.id, v); err != nil {
+			c.Failf("setextension-refused", "SetExtension(%d,%dB) on profile %#x: %v", e.id, e.l, p.ExtensionProfile, err)
+		}
+		w.addElem(e.id, clone(v))
+	}
+	if c.Bool() {
+		for i := 0; i < 15; i++ {
+			p.CSRC = append(p.CSRC, uint32(i)<<24|0x123456)
+		}
+	}
+	if c.Bool() {
+		p.Payload = fill(5, 0x77)
+	}
+	if c.Bool() {
+		p.Padding, p.PaddingSize = true, 2
+		w.w.PadSize = 2
 	}
 	w.w.CSRC = p.CSRC
 	w.w.Payload = clone(p.Payload)
